@@ -388,6 +388,33 @@ def tcp_lifetime(R, test_exe):
     R.add_cases(1, 1 if n >= 5 else 0, lines[-1:])
 
 
+def thread_consume(R, test_exe, rounds):
+    """What the link service dispatches is consumed by real fw.Threads (processIncomingInterest/Data) under recover."""
+    trace = os.path.join(R.work, "thread.trace")
+    env = vlib.goenv()
+    env.update(VERIF_SEED=str(R.seed), VERIF_N=str(rounds), VERIF_OUT=trace)
+    rc, out = vlib.sh([test_exe, "-test.run", "TestThreadConsume$", "-test.count=1", "-test.timeout=300s"], env=env, timeout=400)
+    lines = [l.strip() for l in open(trace, errors="replace")] if os.path.exists(trace) else []
+    if rc != 0:
+        R.oracle_failure("thread-consume-crash", "the harness that lets real forwarding threads consume dispatched packets aborted "
+                         "(panic outside recover / fatal error)", dict(output=out[-2000:], last=lines[-1:]))
+        return
+    kinds = {}
+    for l in lines:
+        m = re.match(r"TC (\d+) (\w+) face=(\d+) tok=(\d+) match=(\d) res=([\w-]+) drained=(\d+) frame=(\S+)", l)
+        if not m:
+            continue
+        kinds[m.group(2)] = kinds.get(m.group(2), 0) + 1
+        if m.group(6) != "ok":
+            where = "handleIncomingFrame" if m.group(6) == "panic-frame" else "the forwarding thread (processIncoming%s)" % ("Data" if m.group(2) == "data" else "Interest")
+            R.oracle_failure("%s:%s" % (m.group(6), m.group(2)),
+                             "%s panicked on a well-formed LP frame carrying a valid %s with a PIT token of %s byte(s)" % (where, m.group(2), m.group(4)),
+                             dict(line=l[:3000], harness="facelp.test -test.run TestThreadConsume"))
+            break
+    R.coverage.setdefault("distribution", {})["thread_consume"] = kinds
+    R.add_cases(len(lines), len(lines), [l[:120] for l in lines[:1]])
+
+
 def load_cases(trace):
     cases, cur, cid = {}, [], None
     for line in open(trace, errors="replace"):
@@ -434,6 +461,7 @@ def part(R):
         R.coverage.setdefault("distribution", {})["frame_sequences"] = dict(cases=lp["kinds"], frames_fed=lp["ops"])
         R.add_cases(lp["cases"], len(lp["nontrivial"]), lp["samples"])
     internal_trace(R, test_exe, 40 if R.quick else 400)
+    thread_consume(R, test_exe, 3 if R.quick else 30)
     rule = ("stream: one evaluation = one adversarial byte stream (huge/overflowing lengths, oversize blocks, exact buffer fill, non-minimal forms, random "
             "and TL-biased bytes, truncation) under one read schedule; frames: one evaluation = one sequence of 4..27 frames fed to a real NDNLPLinkService "
             "(arbitrary FragIndex/FragCount/Sequence incl. 2^32, 2^63, 2^64-1, index >= count, count changes for a live sequence, duplicates, sequence wrap, "
